@@ -64,6 +64,127 @@ def stores(t):
         t in ('self.dul.accepted_contexts', 'self.max_pdu_length', 'self.remote_ae', 'self.sop_classes_as_scp[]', 'self.accepted_contexts[]')
 
 
+def _stale_in_iteration(lp, fi):
+    """reads, inside the body of the loop ``lp``, of a local the loop assigns that is not definitely assigned earlier in the same iteration"""
+    def stores(n_):
+        return {x.id for x in ast.walk(n_) if isinstance(x, ast.Name) and isinstance(x.ctx, ast.Store)}
+    assigned_in_loop = set()
+    accum = {}
+    for st in ast.walk(lp):
+        if st is lp:
+            continue
+        if isinstance(st, ast.AugAssign) and isinstance(st.target, ast.Name):
+            accum.setdefault(st.target.id, []).append(True)
+            assigned_in_loop.add(st.target.id)
+        elif isinstance(st, ast.Assign):
+            for t_ in st.targets:
+                for x in ast.walk(t_):
+                    if isinstance(x, ast.Name) and isinstance(x.ctx, ast.Store):
+                        reads_self = any(isinstance(y, ast.Name) and y.id == x.id and isinstance(y.ctx, ast.Load) for y in ast.walk(st.value))
+                        accum.setdefault(x.id, []).append(reads_self)
+                        assigned_in_loop.add(x.id)
+        elif isinstance(st, (ast.For, ast.comprehension)):
+            assigned_in_loop |= stores(st.target)
+        elif isinstance(st, ast.With):
+            for it in st.items:
+                if it.optional_vars is not None:
+                    assigned_in_loop |= stores(it.optional_vars)
+    accumulators = {k for k, v in accum.items() if v and all(v)}
+    watch = assigned_in_loop - accumulators
+    out = []
+
+    def reads(n_, defined):
+        comp_bound = set()
+        for x in ast.walk(n_):
+            if isinstance(x, ast.comprehension):
+                comp_bound |= stores(x.target)
+        for x in ast.walk(n_):
+            if isinstance(x, ast.Name) and isinstance(x.ctx, ast.Load) and x.id in watch and x.id not in defined and x.id not in comp_bound:
+                out.append('%s: %s is read at line %d with the value an earlier context left in it (it is assigned in the loop at line %d, '
+                           'but not on every path of this iteration before this point)' % (fi.loc(x), x.id, x.lineno, lp.lineno))
+
+    def walk(stmts, defined, breaks):
+        cur = set(defined)
+        for st in stmts:
+            if isinstance(st, (ast.Continue, ast.Return, ast.Raise)):
+                if isinstance(st, (ast.Return, ast.Raise)) and getattr(st, 'value', None) is not None:
+                    reads(st.value, cur)
+                return None
+            if isinstance(st, ast.Break):
+                breaks.append(set(cur))
+                return None
+            if isinstance(st, ast.If):
+                reads(st.test, cur)
+                a = walk(st.body, cur, breaks)
+                b = walk(st.orelse, cur, breaks) if st.orelse else set(cur)
+                if a is None and b is None:
+                    return None
+                cur = a if b is None else b if a is None else (a & b)
+            elif isinstance(st, (ast.For, ast.While)):
+                if isinstance(st, ast.For):
+                    reads(st.iter, cur)
+                    inner_def = cur | stores(st.target)
+                else:
+                    reads(st.test, cur)
+                    inner_def = set(cur)
+                inner_breaks = []
+                walk(st.body, inner_def, inner_breaks)
+                after_else = walk(st.orelse, cur, breaks) if st.orelse else set(cur)
+                outs = ([after_else] if after_else is not None else []) + inner_breaks
+                if not outs:
+                    return None
+                cur = set.intersection(*outs)
+            elif isinstance(st, ast.Try):
+                a = walk(st.body, cur, breaks)
+                outs = [] if a is None else [a]
+                for h in st.handlers:
+                    b = walk(h.body, cur, breaks)
+                    if b is not None:
+                        outs.append(b)
+                if st.orelse and a is not None:
+                    o_ = walk(st.orelse, a, breaks)
+                    outs = [x for x in outs if x is not a] + ([o_] if o_ is not None else [])
+                if not outs:
+                    return None
+                cur = set.intersection(*outs)
+                if st.finalbody:
+                    f_ = walk(st.finalbody, cur, breaks)
+                    if f_ is None:
+                        return None
+                    cur = f_
+            elif isinstance(st, ast.With):
+                for it in st.items:
+                    reads(it.context_expr, cur)
+                    if it.optional_vars is not None:
+                        cur |= stores(it.optional_vars)
+                a = walk(st.body, cur, breaks)
+                if a is None:
+                    return None
+                cur = a
+            elif isinstance(st, (ast.FunctionDef, ast.ClassDef)):
+                continue
+            else:
+                if isinstance(st, ast.Assign):
+                    reads(st.value, cur)
+                    for t_ in st.targets:
+                        for x in ast.walk(t_):
+                            if not (isinstance(x, ast.Name) and isinstance(x.ctx, ast.Store)):
+                                if isinstance(x, ast.Name):
+                                    reads(x, cur)
+                    cur |= stores(st)
+                elif isinstance(st, ast.AugAssign):
+                    reads(st.value, cur)
+                    if isinstance(st.target, ast.Name) and st.target.id in watch and st.target.id not in cur:
+                        reads(ast.Name(id=st.target.id, ctx=ast.Load(), lineno=st.lineno, col_offset=0), cur)
+                    cur |= stores(st)
+                else:
+                    reads(st, cur)
+                    cur |= stores(st)
+        return cur
+    walk(lp.body, stores(lp.target), [])
+    return out
+
+
 def run(repo, rep):
     from ..pitfalls import memo_rule as _memo_rule
     _memo_rule(repo, rep, 'C09', 'C09.Z1')
@@ -101,6 +222,24 @@ def run(repo, rep):
         p8 += oneshot_reuse(repo, hf)
     rep.check(not p8, 'C09.N8', 'asceprovider:AssociationAcceptor.accept:single-pass', f.loc(), 'no one-shot iterator over the proposal is '
               'consumed twice', '; '.join(sorted(set(p8))))
+    rep.rule('C09.N9', 'each proposed context is answered on its own (PS3.8 7.1.1.13: the contexts are negotiated independently): in the '
+             'loop that builds the PresentationContextItemAC items, a local that the loop assigns is read only after it was assigned in '
+             'the same iteration -- otherwise the answer to one context depends on the context before it (accumulators, whose every '
+             'assignment reads the name itself, are what they are meant to be)', 1)
+    p9 = []
+    n9 = 0
+    for hf in repo.helper_closure(f):
+        for lp in [x for x in ast.walk(hf.node) if isinstance(x, ast.For)]:
+            if not any(isinstance(c_, ast.Call) and norm(c_.func).endswith('PresentationContextItemAC') for c_ in ast.walk(lp)):
+                continue
+            if any(lp is not o_ and isinstance(o_, ast.For) and lp in list(ast.walk(o_)) and
+                   any(isinstance(c_, ast.Call) and norm(c_.func).endswith('PresentationContextItemAC') for c_ in ast.walk(o_))
+                   for o_ in ast.walk(hf.node)):
+                continue       # an inner loop of the context loop
+            n9 += 1
+            p9 += _stale_in_iteration(lp, hf)
+    rep.check(not p9, 'C09.N9', 'asceprovider:AssociationAcceptor.accept:fresh-per-context', f.loc(),
+              '%d context loop(s): every local the loop assigns is assigned in the iteration that reads it' % n9, '; '.join(sorted(set(p9))))
     rep.rule('C09.N5', 'the reply repeats the request\'s AE titles (same-named fields) and application context item; user '
              'information is appended last', 1)
 
